@@ -180,8 +180,15 @@ class GarbageCollector:
 
         try:
             markers = self.storage.list_files(INFLIGHT_PATH)
-        except Exception:
-            markers = []
+        except Exception as e:
+            # Not knowing which markers exist means not knowing which files a
+            # live transaction has registered: treating the failure as "no
+            # markers" would strip their protection. Abort (fail closed); this
+            # runs before the first delete.
+            raise GarbageCollectionAborted(
+                f"Aborting GC: cannot list in-flight markers under {INFLIGHT_PATH}: {e}. "
+                f"Nothing was deleted."
+            ) from e
 
         for marker_path in markers:
             norm_marker = self._normalize_path(marker_path)
